@@ -331,7 +331,9 @@ func writeSyncFile(fn string, data []byte) error {
 		return err
 	}
 
+	verifPoint("meta.persist.afterOpen")
 	_, err = f.Write(data)
+	verifPoint("meta.persist.afterWrite")
 	if err == nil {
 		err = f.Sync()
 	}
@@ -424,16 +426,19 @@ func (n *NSQD) PersistMetadata() error {
 	if err != nil {
 		return err
 	}
+	verifPoint("meta.persist.afterSnapshot")
 	tmpFileName := fmt.Sprintf("%s.%d.tmp", fileName, rand.Int())
 
 	err = writeSyncFile(tmpFileName, data)
 	if err != nil {
 		return err
 	}
+	verifPoint("meta.persist.afterSync")
 	err = os.Rename(tmpFileName, fileName)
 	if err != nil {
 		return err
 	}
+	verifPoint("meta.persist.afterRename")
 	// technically should fsync DataPath here
 
 	return nil
@@ -566,6 +571,7 @@ func (n *NSQD) DeleteExistingTopic(topicName string) error {
 	// to enforce ordering
 	topic.Delete()
 
+	verifPoint("topic.delete.beforeUnlink")
 	n.Lock()
 	delete(n.topicMap, topicName)
 	n.Unlock()
@@ -579,6 +585,7 @@ func (n *NSQD) Notify(v interface{}, persist bool) {
 	// nsqd will call `PersistMetadata` it after loading
 	loading := atomic.LoadInt32(&n.isLoading) == 1
 	n.waitGroup.Wrap(func() {
+		verifPoint("nsqd.notify.beforeSend")
 		// by selecting on exitChan we guarantee that
 		// we do not block exit, see issue #123
 		select {
